@@ -11,7 +11,7 @@ RULE = (
     'log-uniform in [1e-4, 1e-2], class sizes >= D+2 (drawn per class), '
     'arbitrary complex per-frame gains spanning 0, 6, 16 or 200 decades (positive gains for '
     'vMF streams, none for Gaussian streams), start = true partition blurred '
-    'with beta in [0, 0.45] (cACG/Bingham models <= 0.3, Gaussian streams <= 0.15: the basin of exact EM, see DESIGN.md), iterations 1..20, all seven models (integration '
+    'with beta in [0, 0.45] (cACG models <= 0.3, Gaussian streams and Bingham <= 0.15: the basin of exact EM, see DESIGN.md), iterations 1..20, all seven models (integration '
     'models: per-frequency spatial prototypes and global spectral '
     'prototypes). Non-trivial: beta >= 0.1 or iterations >= 2. Distinct = '
     'distinct recorded choice sequence.'
@@ -55,7 +55,7 @@ def _scene(d, kind):
     # of *correct* EM are 5-20 % for full-covariance Gaussians at beta >= 0.3
     # and about 1 % for cACG at beta = 0.45, zero below the bounds used here.
     beta_max = {'gmm': 0.15, 'gcacgmm': 0.15, 'cacgmm': 0.3, 'vmfcacgmm': 0.3,
-                'cbmm': 0.3}.get(kind, 0.45)
+                'cbmm': 0.15}.get(kind, 0.45)
     beta = d.choice([0.0, 0.1, beta_max]) if d.bool() else d.float(0, beta_max)
     iterations = d.choice([1, 2, 3, 5, 10, 20])
     if kind == 'cbmm':
